@@ -65,6 +65,53 @@ def build(shape, cpdir, counter=None, fail_at=None, after=None):
     return Flow(*links)
 
 
+def retry_case(item):
+    """the SAME Flow object is run again after its first run failed while the checkpoint was being written (a retry loop):
+    the retry recomputes from the sources and returns what an uninterrupted run returns; a third, fresh run resumes from the
+    checkpoint the retry published.  Sources are lists (re-iterable); the failing step fails on its first pass only."""
+    import contextlib
+    import io
+    import shutil
+    import tempfile
+    from dataflows import Flow, checkpoint
+    setup_repo()
+    shape, where, j = item['shape'], item['where'], item['at']
+    root = tempfile.mkdtemp(prefix='c08r-', dir=tlc.WORK_ROOT)
+    try:
+        def lists():
+            return [[dict(r=r, k=k, v='x%d' % k) for k in range(1, n + 1)] for r, n in enumerate(shape, start=1)]
+        state = {'n': 0, 'armed': True}
+
+        def boom(row):
+            state['n'] += 1
+            if state['armed'] and state['n'] == j:
+                state['armed'] = False
+                raise RuntimeError('fails once, at row %d' % j)
+        with contextlib.redirect_stdout(io.StringIO()), contextlib.redirect_stderr(io.StringIO()):
+            ref = result_of(Flow(*lists(), checkpoint('ref', checkpoint_path=root)))
+            cp = checkpoint('cp', checkpoint_path=root)
+            flow = Flow(*(lists() + ([boom, cp] if where == 'before' else [cp, boom])))
+            try:
+                flow.results()
+                return dict(ok=False, why='the run with the failing step returned normally')
+            except Exception:
+                pass
+            if os.path.exists(os.path.join(root, 'cp', 'stream.ndjson')):
+                return dict(ok=False, why='the failed run left a checkpoint under its final name')
+            try:
+                second = result_of(flow)
+            except Exception as e:
+                return dict(ok=False, why='the retry of the same Flow raised %s: %s' % (type(e).__name__, str(getattr(e, 'cause', e))[:120]))
+            if second != ref:
+                return dict(ok=False, why='the retry of the same Flow does not return what an uninterrupted run returns', got=second[:300])
+            third = result_of(Flow(*(lists() + [checkpoint('cp', checkpoint_path=root)])))
+            if third != ref:
+                return dict(ok=False, why='the run after the retry (resuming from its checkpoint) returns something else', got=third[:300])
+        return dict(ok=True)
+    finally:
+        shutil.rmtree(root, ignore_errors=True)
+
+
 def result_of(flow):
     res, dp, _ = flow.results()
     return canon(dict(resources=[dict(name=r['name'], schema=r['schema']) for r in dp.descriptor.get('resources', [])],
@@ -228,6 +275,14 @@ def run():
     errs = harness_errors(traces)
     if errs:
         raise tlc.MachineryError('harness error in crash enumeration: ' + errs[0])
+    ritems = [dict(shape=s, where=w, at=j) for s in shapes if sum(s) > 0 for w in ('before', 'after') for j in sorted({1, sum(s)})]
+    for it, out in zip(ritems, pmap(retry_case, ritems, chunksize=2)):
+        if '__harness_error__' in out:
+            raise tlc.MachineryError('harness error in retry cases: ' + out['__harness_error__'])
+        rep.count(1, traces=1)
+        rep.mark_distinct(dict(retry=it))
+        if not out['ok']:
+            rep.violation(dict(retry=it), dict(case=it, **{k_: v for k_, v in out.items() if k_ != 'ok'}), category='retry-same-flow/%s' % out['why'][:40])
     verd = validate(rep, traces)
     # the binding binds: a recorded interruption whose follow-up run "resumed" although no checkpoint was published, and one
     # whose operation log lost an entry, must be rejected
@@ -263,6 +318,12 @@ def run():
 def replay(path):
     setup_repo()
     rec = json.load(open(path))
+    if 'retry' in rec['case']:
+        out = retry_case(rec['case']['retry'])
+        print(out)
+        if not out['ok']:
+            print('VIOLATION property=%s replay=%s' % (PROP, path))
+        return 0 if out['ok'] else 1
     tr = crash_case(rec['case'])
     rep = Report(PROP)
     v = validate(rep, [tr])[0]
